@@ -13,6 +13,7 @@
 # limitations under the License.
 
 from .eval import EvalNode
+from ..namespace import namespace, staticproperty
 
 
 class FStrNode(EvalNode):
@@ -47,3 +48,9 @@ class FStrNode(EvalNode):
         if len(fstr) < 3 or fstr[0] != 'f' or fstr[1] not in ['"', "'"] or fstr[1] != fstr[-1]:
             raise ValueError(f'Invalid f-string: {fstr!r}')
         super().__init__(fstr, persistent_namespace=False, **kwargs)
+
+    @namespace('ayns')
+    @staticproperty
+    @staticmethod
+    def tag():
+        return '!fstr'
